@@ -360,6 +360,10 @@ fn exec_isolated(prop: &str, dir: &Path, case: &Value, tag: &str) -> Result<Opti
 fn abort_violation(prop: &str, sig: i32, stderr: &str) -> Violation {
     let what = if stderr.contains("stack overflow") {
         "native stack overflow".to_string()
+    } else if stderr.contains("WATCHDOG") {
+        "wedge (a host call did not return within 45 s)".to_string()
+    } else if stderr.contains("memory allocation") {
+        "allocation failure (abort)".to_string()
     } else {
         format!("signal {sig}")
     };
@@ -658,8 +662,8 @@ fn run_shard(prop: &'static str, a: &CheckArgs, runs: u64, dir: &Path, shard: u6
                 announce_all = true;
             }
         }
-        if incarnation > 60 || out.aborts.len() >= 25 {
-            out.errors.push(format!("worker {shard}: too many process deaths ({}), shard abandoned", out.aborts.len()));
+        if incarnation > 12 || out.aborts.len() >= 4 {
+            // enough evidence from this shard; the deaths themselves are reported as violations
             return out;
         }
         if let Some(d) = deadline {
